@@ -254,7 +254,11 @@ impl Property for C14 {
                 build_dir(&dmodel).install(&mut dp);
                 let fin = dp.finalize().map_err(io)?;
                 let mut file = container.into_file().map_err(io)?;
-                let dir_data = fin.write(&mut file).map_err(jb)?;
+                let mut dir_data = fin.write(&mut file).map_err(jb)?;
+                // with an odd number of packs the directory pack carries free data too: then NO pack of
+                // the manifest is without, and the empty value is not in the manifest's value store
+                let dir_free: Vec<u8> = if *packs % 2 == 1 { b"free data of the directory pack".to_vec() } else { vec![] };
+                dir_data.free_data = dir_free.clone();
                 container = file.close(dir_data.uuid).map_err(io)?;
                 let mut manifest = jbk::creator::ManifestPackCreator::new(vendor(), fdb(b'm', 0).into());
                 manifest.add_pack(dir_data, "");
@@ -323,7 +327,7 @@ impl Property for C14 {
                         ensure!(m.get_content_pack_info_uuid(pi.uuid).map(|p| p.pack_id) == Some(pi.pack_id), "manifest-pack-list", "get_content_pack_info_uuid of pack {} names another pack", k + 1);
                     }
                     let d0 = m.get_pack_free_data(jbk::PackId::from(0)).map_err(err)?.map(|b| b.to_vec());
-                    ensure!(d0.as_deref() == Some(&b""[..]), "manifest-free-data", "get_pack_free_data(directory pack) = {d0:?}, nothing was given");
+                    ensure!(d0.as_deref() == Some(&dir_free[..]), "manifest-free-data", "get_pack_free_data(directory pack) = {d0:?}, given {:?}", String::from_utf8_lossy(&dir_free));
                     info.evals += 3 * *packs as u64;
                 }
                 info.nontrivial = true;
